@@ -59,6 +59,15 @@ func vxRanks(n int, mode string) []int {
 				r[k] = vx.IteInt(p == k, v, r[k])
 			}
 		}
+	case "blocks": // four constant runs with symbolic lengths; the run values are the digits of param vs
+		vs := vx.ParamStr("vs")
+		a := vx.IntN(0, n)
+		b := vx.IntN(0, n)
+		c := vx.IntN(0, n)
+		vx.Assume(vx.And(a <= b, b <= c))
+		for k := range r {
+			r[k] = vx.IteInt(k < a, int(vs[0]-'0'), vx.IteInt(k < b, int(vs[1]-'0'), vx.IteInt(k < c, int(vs[2]-'0'), int(vs[3]-'0'))))
+		}
 	default:
 		panic("mode " + mode)
 	}
